@@ -187,6 +187,21 @@ func shapeRequest(shape string, req *envoy.CheckRequest, cname string) *envoy.Ch
 		h.Host = appHost + ":443"
 	case "hostOdd":
 		h.Host = "[::1]:99999"
+	case "sameSessionParallel":
+		// (the request is not deformed: the shape marks checks whose store events interleave with those of other checks of the
+		// same session in an order the trace does not fix; only the crash and leak monitors judge them)
+	case "hostPortWord":
+		h.Host = appHost + ":https"
+	case "hostOpenBracket":
+		h.Host = "[::1"
+	case "hostUserinfo":
+		h.Host = "user:pa%ss@" + appHost
+	case "hostCRLF":
+		h.Host = appHost + "\r\nx: y"
+	case "hostColons":
+		h.Host = "a:b:c"
+	case "hostEmptyPort":
+		h.Host = appHost + ":"
 	case "queryFieldSet":
 		h.Query = "a=b&state=x"
 	case "methodOdd":
@@ -342,6 +357,66 @@ func (d *driver) parallelFlows(st *Step) {
 	wg.Wait()
 }
 
+// hammer sends several requests carrying ONE session cookie truly in parallel (no gates), round after round: requests for the
+// application and logouts on a session that is pending or (every fourth round) authenticated. Whatever the
+// interleaving inside the stores, no request may crash.
+func (d *driver) hammer(st *Step) {
+	f := d.env.fspec[st.F]
+	if f == nil {
+		f = &d.env.spec.Filters[0]
+	}
+	const clients = 12
+	for round := 0; round < st.D; round++ {
+		b := fmt.Sprintf("h%d", round)
+		// sequentially: a session for the browser, pending or (odd rounds) authenticated
+		if round%4 == 3 {
+			d.browse(&Step{Op: "browse", B: b, F: f.Name, URL: 1, Ans: st.Ans})
+		} else {
+			c := d.start(&Step{Op: "check", B: b, F: f.Name, Kind: "app", Cookie: "none", URL: 1, Ans: st.Ans})
+			d.finish(c)
+		}
+		sid := d.browser(b).jar[cookieName(f)]
+		if sid == "" {
+			continue
+		}
+		d.parallel = true
+		d.orphan = &checkRun{id: "orphan", n: 0, f: f.Name}
+		d.jitter.Store(true)
+		var wg sync.WaitGroup
+		begin := make(chan struct{})
+		for g := 0; g < clients; g++ {
+			wg.Add(1)
+			go func(g int) {
+				defer wg.Done()
+				kind := "app"
+				if g%3 == 2 && f.Logout {
+					kind = "logout"
+				}
+				next := Step{Op: "check", B: fmt.Sprintf("%s-%d", b, g), F: f.Name, Kind: kind, Cookie: "raw:" + sid, URL: g % len(urlPool), Ans: st.Ans, Shape: "sameSessionParallel"}
+				d.big.Lock()
+				c, req := d.prepare(&next)
+				d.big.Unlock()
+				<-begin
+				func() {
+					defer func() {
+						if r := recover(); r != nil {
+							c.pan, c.stack = r, string(debug.Stack())
+						}
+					}()
+					c.resp, c.err = d.env.filter.Check(context.WithValue(context.Background(), checkKey{}, c), req)
+				}()
+				d.big.Lock()
+				d.finishCheck(c)
+				d.big.Unlock()
+			}(g)
+		}
+		close(begin)
+		wg.Wait()
+		d.jitter.Store(false)
+		d.parallel = false
+	}
+}
+
 func (d *driver) setSecret(name, value string) error {
 	e := d.env
 	if e.kube == nil {
@@ -464,6 +539,8 @@ func (d *driver) runScenario(sc *Scenario) (err error) {
 			d.browse(st)
 		case "parallel":
 			d.parallelFlows(st)
+		case "hammer":
+			d.hammer(st)
 		case "secret":
 			// the Kubernetes Secret st.F gets the value st.Value and the controller reconciles it
 			if err := d.setSecret(st.F, st.Value); err != nil {
